@@ -1,9 +1,9 @@
 (* C08 — LM never accepts a worse loss, restores rejected trials, reports the true loss.
    Statements only (over R); proofs in Proofs/LM.v.  The parameter space, its loss, the retraction
    (with retract (retract t d) (-d) = t), the predicted decrease and the linear solver are arbitrary. *)
-From Coq Require Import Reals List Arith.
+From Coq Require Import Reals List Arith Sorted.
 Import ListNotations.
-From PV Require Import Base.Num Model.LM Proofs.LM.
+From PV Require Import Base.Num Model.LieGroup Model.LieExp Model.LM Proofs.LieGroup Proofs.LM Proofs.LM2 Proofs.LM3.
 Local Open Scope R_scope.
 #[local] Remove Hints NumQ NumZ : typeclass_instances.
 
@@ -85,7 +85,126 @@ Theorem C08_strategy_bounds : forall (c : scfg (F:=R)), smin c <= smax c -> kind
   | SConstant => True end.
 Proof. exact strategy_bounds_history. Qed.
 
+
+(* ================= strengthening round (Proofs/LM2.v, LM3.v) ================= *)
+Section C08b.
+Variables Theta Delta : Type.
+Variable loss : Theta -> R.
+Variable retract : Theta -> Delta -> Theta.
+Variable negd : Delta -> Delta.
+Variable pred : Theta -> Delta -> R.
+Variable solve : nat -> option Delta.
+
+(* EXACT outcome of one LevenbergMarquardt.step for every solver behaviour (fault sequences included).
+   Let the first j = |ds| <= reject solves of the call return the steps ds, each giving a worse loss than the
+   loss l0 the call was given (worse_trials), and let the retraction undo be exact on these rejected steps.
+   - If the solver raises at solve j: parameters, loss and `last` as given, reject_count = j, exactly j
+     strategy updates were made (one per completed trial, none for the raise), j+1 solves.
+   - If solve j returns d and the trial is not worse, or j = reject (budget exhausted): exactly that trial is
+     kept, its true loss is returned and cached, reject_count = j, j+1 strategy updates, j+1 solves.
+   No global retract_undo hypothesis: only the rejected steps must be undone exactly. *)
+Theorem C08_lm_step_exact_outcome : forall (c : scfg) (reject : nat) (s : ost Theta) (ds : list Delta),
+  cache_ok Theta loss s ->
+  (forall d, In d ds -> retract (retract (th s) d) (negd d) = th s) ->
+  (forall i d, nth_error ds i = Some d -> solve (nsolve s + i) = Some d /\ loss (th s) < loss (retract (th s) d)) ->
+  (length ds <= reject)%nat ->
+  let stj := fold_left (fun st d => supdate c st (loss (th s)) (loss (retract (th s) d)) (pred (th s) d)) ds (ss s) in
+  (solve (nsolve s + length ds) = None ->
+     lm_step Theta Delta loss retract negd pred solve c reject s =
+       Some ({| th := th s; cached := Some (loss (th s)); last := loss (th s); rej := length ds; ss := stj;
+                nsolve := S (nsolve s + length ds) |}, loss (th s))) /\
+  (forall d, solve (nsolve s + length ds) = Some d -> loss (retract (th s) d) <= loss (th s) \/ length ds = reject ->
+     lm_step Theta Delta loss retract negd pred solve c reject s =
+       Some ({| th := retract (th s) d; cached := Some (loss (retract (th s) d)); last := loss (th s); rej := length ds;
+                ss := supdate c stj (loss (th s)) (loss (retract (th s) d)) (pred (th s) d);
+                nsolve := S (nsolve s + length ds) |}, loss (retract (th s) d))).
+Proof. exact (lm_step_exact Theta Delta loss retract negd pred solve). Qed.
+(* ... and every solver behaviour is covered: such a prefix of worse trials always exists, ending with
+   budget exhausted / a raise / a trial that is not worse *)
+Theorem C08_lm_step_cases_exhaustive : forall (th0 : Theta) (l0 : R) (n0 reject : nat),
+  exists ds, worse_trials Theta Delta loss retract solve th0 l0 n0 ds /\ (length ds <= reject)%nat /\
+    (length ds = reject \/ solve (n0 + length ds) = None \/
+     exists d, solve (n0 + length ds) = Some d /\ loss (retract th0 d) <= l0).
+Proof. exact (worse_prefix_exists Theta Delta loss retract solve). Qed.
+
+Hypothesis retract_undo : forall t d, retract (retract t d) (negd d) = t.
+(* sequences of calls on the same data (any mix of LM configurations and GN):
+   EVERY returned value is the true and cached loss of the parameters its own call left behind *)
+Theorem C08_every_call_returns_true_loss : forall ks (s : ost Theta) tr, cache_ok Theta loss s ->
+  run_trace Theta Delta loss retract negd pred solve s ks = Some tr ->
+  Forall (fun p => snd p = loss (th (fst p)) /\ cached (fst p) = Some (snd p) /\ cache_ok Theta loss (fst p)) tr.
+Proof. exact (all_calls_return_true_loss Theta Delta loss retract negd pred solve retract_undo). Qed.
+(* run_trace is run_calls with the intermediate states kept *)
+Theorem C08_trace_is_run : forall ks (s : ost Theta),
+  run_calls Theta Delta loss retract negd pred solve s ks =
+    match run_trace Theta Delta loss retract negd pred solve s ks with
+    | Some tr => Some (List.last (map fst tr) s, map snd tr) | None => None end.
+Proof. exact (run_trace_calls Theta Delta loss retract negd pred solve). Qed.
+(* any sequence of LM calls runs to completion whatever the solver does (raises included) *)
+Theorem C08_lm_calls_terminate : forall ks (s : ost Theta), cache_ok Theta loss s -> Forall is_lm ks ->
+  exists tr, run_trace Theta Delta loss retract negd pred solve s ks = Some tr /\ length tr = length ks.
+Proof. exact (lm_calls_terminate Theta Delta loss retract negd pred solve retract_undo). Qed.
+(* while no call exhausts its rejection budget the returned losses never increase: l0 >= v1 >= v2 >= ... *)
+Theorem C08_lm_calls_monotone : forall ks (s : ost Theta) tr, cache_ok Theta loss s ->
+  run_trace Theta Delta loss retract negd pred solve s ks = Some tr ->
+  Forall2 (fun k p => match k with CallLM _ r => rej (fst p) <> r | CallGN => False end) ks tr ->
+  Sorted (fun a b => b <= a) (loss (th s) :: map snd tr).
+Proof. exact (lm_calls_monotone Theta Delta loss retract negd pred solve retract_undo). Qed.
+End C08b.
+
+(* the retraction-undo hypothesis for pypose's own SO3 parameters (retract X d = Exp(d) @ X):
+   exact on the closed-form branch of so3_Exp and for the zero step; for a small-angle step the restored
+   quaternion is X scaled by a factor within theta^6/20000 of 1 - and it is not exact there *)
+Theorem C08_so3_retract_undo : forall (eps : R) (X : quatR) (d : vec3R),
+  (0 <= eps -> eps < vnorm d -> SO3_mul (so3_exp eps (vneg d)) (SO3_mul (so3_exp eps d) X) = X) /\
+  (0 <= eps -> SO3_mul (so3_exp eps (vneg vzero)) (SO3_mul (so3_exp eps vzero) X) = X) /\
+  (vnorm d <= eps -> eps <= 1 / 1024 ->
+     exists k, SO3_mul (so3_exp eps (vneg d)) (SO3_mul (so3_exp eps d) X) = (vscale k (qv X), k * qw X) /\
+               Rabs (k - 1) <= (vnorm d) ^ 6 / 20000).
+Proof.
+  intros eps X d. split; [exact (so3_retract_undo_closed eps X d) | split; [exact (so3_retract_undo_zero eps X) |
+    exact (so3_retract_undo_small eps X d)]].
+Qed.
+Theorem C08_so3_retract_undo_small_step_refuted : forall (eps : R) (X : quatR) (d : vec3R),
+  0 < vnorm d -> vnorm d <= eps -> eps <= 1 / 1024 -> qnorm2 X <> 0 ->
+  SO3_mul (so3_exp eps (vneg d)) (SO3_mul (so3_exp eps d) X) <> X.
+Proof. exact so3_retract_undo_small_inexact. Qed.
+
+(* strategies: the quality comparison at zero predicted decrease (the code's quality is +-inf or nan) *)
+Theorem C08_quality_at_zero_prediction : forall l1 l2 h : R, qual_gt l1 l2 0 h = true <-> l2 < l1.
+Proof. exact qual_gt_zero_pred. Qed.
+(* TrustRegion with 0 < min <= max and a non-zero damping on entry: along ANY history of updates every state has
+   a positive damping (1/damping is a true quotient at each update, never the totalised 1/0), and after the
+   first update radius, down in [min,max], damping * radius = 1 *)
+Theorem C08_trust_region_wellformed : forall (c : scfg (F:=R)), kind c = STrust -> 0 < smin c <= smax c ->
+  forall (upd : list (R * R * R)) s, 0 < damping s ->
+  (forall k, 0 < damping (fold_left (fun s u => match u with (a, b, p) => supdate c s a b p end) (firstn k upd) s)) /\
+  (upd <> [] ->
+   let s' := fold_left (fun s u => match u with (a, b, p) => supdate c s a b p end) upd s in
+   smin c <= radius s' <= smax c /\ smin c <= down s' <= smax c /\ damping s' * radius s' = 1 /\ 0 < damping s').
+Proof. exact trust_history_ok. Qed.
+(* the documented TrustRegion moves in terms of the previous radius *)
+Theorem C08_trust_region_moves_radius : forall (c : scfg (F:=R)) s l1 l2 p, kind c = STrust ->
+  damping s * radius s = 1 ->
+  radius (supdate c s l1 l2 p) =
+    clampF (smin c) (smax c)
+      (if qual_gt l1 l2 p (high c) then up c * radius s else if qual_gt l1 l2 p (low c) then radius s
+       else radius s * down s).
+Proof. exact trust_moves_radius. Qed.
+(* non-vacuity of the hypotheses of C08_lm_step_exact_outcome: loss t^2, additive retraction, first trial worse,
+   then the solver raises / returns an improving step *)
+Theorem C08_exact_outcome_hypotheses_satisfiable :
+  worse_trials R R (fun t => t * t) Rplus ex_solve_raise 1 1 0 [1] /\
+  worse_trials R R (fun t => t * t) Rplus ex_solve_ok 1 1 0 [1] /\
+  ex_solve_raise (0 + 1) = None /\ ex_solve_ok (0 + 1) = Some (-1) /\ (1 + -1) * (1 + -1) <= 1.
+Proof. exact ex_worse_trials. Qed.
+
 Print Assumptions C08_lm_step. Print Assumptions C08_rejected_trial_restores. Print Assumptions C08_solver_raises.
 Print Assumptions C08_gn_step. Print Assumptions C08_repeated_calls. Print Assumptions C08_constant.
 Print Assumptions C08_adaptive. Print Assumptions C08_trust_region. Print Assumptions C08_quality_means_ratio.
 Print Assumptions C08_strategy_bounds.
+Print Assumptions C08_lm_step_exact_outcome. Print Assumptions C08_lm_step_cases_exhaustive.
+Print Assumptions C08_every_call_returns_true_loss. Print Assumptions C08_trace_is_run. Print Assumptions C08_lm_calls_terminate.
+Print Assumptions C08_lm_calls_monotone. Print Assumptions C08_so3_retract_undo. Print Assumptions C08_so3_retract_undo_small_step_refuted.
+Print Assumptions C08_quality_at_zero_prediction. Print Assumptions C08_trust_region_wellformed.
+Print Assumptions C08_trust_region_moves_radius. Print Assumptions C08_exact_outcome_hypotheses_satisfiable.
